@@ -101,6 +101,8 @@ EXPR_KINDS = [
     "(a, b)", "(a,)", "()", "(x for x in a)", "(a)", "((a))", "(yield)", "(yield a)", "(yield from a)", "(a := b)", "(a if b else c)",
     "(lambda: a)", "(a or b)", "(not a)", "(a, *b)", "[*a, b]", "a[b:c]", "a[b:c:d]", "a[::2]", "a[b, c]", "a[b:c, d]", "a[*b]", "a[*b, c]",
     "a.b.c(d)[e]", "a if b else c if d else e", "a or b and not c", "-a ** -b", "await a ** b", "a < b > c != d",
+    # constant tuples (the optimiser folds exactly the load-context ones), nested and as subscripts
+    "(1, 2)", "((1, 2), (3, 'k'))", "(1,)", "a[1, 2]", "a[(1, 2)]", "f((1, b'x'), k=(None, ...))", "(1, (2, 3), a)", "(1.5, 1j, True)",
 ]
 
 
@@ -145,6 +147,8 @@ def misc_shapes():
         out.append(f"f({e})\n")
         out.append(f"f(k={e}, *{e}, **{e})\n" if not e.startswith(("(yield", "lambda", "a if", "a or", "a and", "not ")) else f"f(k=({e}))\n")
         out.append(f"del_target = {e}\nassert {e}, {e}\n")
+        out.append(f"del x[{e}], y[{e}].z, w[{e}:{e}]\n")      # load-context parts of del / store targets
+        out.append(f"x[{e}] = y[{e}].z = 0\nfor x[{e}] in y: pass\n")
         out.append(f"if {e}: pass\nelif {e}: pass\nelse: pass\n")
         out.append(f"while {e}: pass\n")
         out.append(f"for x in {e}: pass\n")
